@@ -135,11 +135,13 @@ T_Step ==
 T_Teardown ==
   /\ tpc = "teardown"
   /\ Put(<<Ev("ScF", suite, suite * 100 + scen, IF scst = "none" THEN "skip" ELSE scst)>>)
-  /\ IF pend = "ctrlc" THEN tpc' = "run_end" /\ UNCHANGED nscen
+  /\ IF pend = "ctrlc" THEN tpc' = "run_end" /\ UNCHANGED <<nscen, pend>>
      ELSE /\ nscen' = nscen + 1
-          /\ \/ nscen + 1 < MaxScen /\ tpc' = "setup"
-             \/ tpc' = "run_end"
-  /\ UNCHANGED <<suite, scen, stepn, scst, sst, pend, nSeenRun, nSeenSuite, stop, fails, limit>> /\ CUnch /\ NoEmit /\ GUnch
+          /\ \/ nscen + 1 < MaxScen /\ tpc' = "setup" /\ UNCHANGED pend
+             \/ tpc' = "run_end" /\ UNCHANGED pend
+             \* what teardown() does AFTER the announcement (feedback to Hypothesis' targeted search, user code) raises: the run ends as an error
+             \/ AllowError /\ tpc' = "run_end" /\ pend' = "error"
+  /\ UNCHANGED <<suite, scen, stepn, scst, sst, nSeenRun, nSeenSuite, stop, fails, limit>> /\ CUnch /\ NoEmit /\ GUnch
 (* how `InstrumentedStateMachine.run()` returns: normally, KeyboardInterrupt, FailureGroup, Flaky, any other exception *)
 T_RunEnd ==
   /\ tpc = "run_end"
